@@ -88,3 +88,32 @@ Lemma cmp_ok_u16_l a b : cmp_ok a b = true -> u16_ok a = true.
 Proof. unfold cmp_ok. intros H. apply andb_true_iff in H as [H _]. now apply andb_true_iff in H as [H _]. Qed.
 Lemma cmp_ok_u16_r a b : cmp_ok a b = true -> u16_ok b = true.
 Proof. unfold cmp_ok. intros H. apply andb_true_iff in H as [H _]. now apply andb_true_iff in H as [_ H]. Qed.
+
+(* the atomic condition of the guard is tight: two u16 values farther apart than the tolerance are
+   compared differently after a suitable relabelling *)
+Lemma seq_sub_shift_tight a b : u16_ok a = true -> u16_ok b = true -> near WRAP_TOLERANCE a b = false ->
+  exists d, seq_sub (sh16 d a) (sh16 d b) <> seq_sub a b.
+Proof.
+  intros Ha%u16_ok_iff Hb%u16_ok_iff Hn. unfold near in Hn. apply orb_false_iff in Hn as [H1 H2].
+  apply Z.leb_gt in H1. apply Z.leb_gt in H2.
+  destruct (Z.ltb_spec a b) as [L|L].
+  - exists (M16 - b).
+    unfold seq_sub, seq_nr_offset, sh16, wsub16, WRAP_TOLERANCE, M16 in *.
+    replace ((b + (65536 - b)) mod 65536) with 0 by lia.
+    replace ((a + (65536 - b)) mod 65536) with (a - b + 65536) by lia.
+    destruct (Z.ltb_spec (a - b + 65536) 0); [lia|].
+    destruct (Z.eqb_spec (a - b + 65536) 0); [lia|].
+    destruct (Z.ltb_spec a b); [|lia].
+    destruct (Z.leb_spec ((0 - (a - b + 65536)) mod 65536) 1024); [lia|].
+    destruct (Z.leb_spec ((a - b) mod 65536) 1024); lia.
+  - exists (M16 - a).
+    unfold seq_sub, seq_nr_offset, sh16, wsub16, WRAP_TOLERANCE, M16 in *.
+    assert (a <> b) by lia.
+    replace ((a + (65536 - a)) mod 65536) with 0 by lia.
+    replace ((b + (65536 - a)) mod 65536) with (b - a + 65536) by lia.
+    destruct (Z.ltb_spec 0 (b - a + 65536)); [|lia].
+    destruct (Z.leb_spec ((0 - (b - a + 65536)) mod 65536) 1024); [lia|].
+    destruct (Z.ltb_spec a b); [lia|].
+    destruct (Z.eqb_spec a b); [lia|].
+    destruct (Z.leb_spec ((b - a) mod 65536) 1024); lia.
+Qed.
